@@ -11,6 +11,8 @@ import IcontractModel.Spec.PyBind
 import IcontractModel.Decor
 import IcontractModel.Config
 import IcontractModel.Spec.Override
+import IcontractModel.Spec.Frames
+import IcontractModel.Inv
 open Lean Icontract
 
 deriving instance FromJson, ToJson for Exc
@@ -347,6 +349,90 @@ def run (c : MetaCase) : Json :=
 
 end MetaRun
 
+/-! ## member-selection domain -/
+
+deriving instance FromJson, ToJson for Meta.CheckOn
+
+structure SelMember where
+  name : String
+  kind : String       -- function | property | staticmethod | classmethod | other
+deriving FromJson
+
+structure SelectCase where
+  invs : List Meta.CheckOn
+  members : List SelMember
+deriving FromJson
+
+def runSelect (c : SelectCase) : Json :=
+  let mem (k : String) : Meta.Member :=
+    match k with
+    | "function" => .func 0
+    | "property" => .prop (some 0) (some 1) none
+    | "staticmethod" => .static 0
+    | "classmethod" => .classm 0
+    | _ => .other
+  let gj (g : Inv.Guard) : Json := match g with
+    | .none => jStr "none" | .onCall => jStr "onCall" | .onSetattr => jStr "onSetattr" | .ctor => jStr "ctor"
+  Json.mkObj [
+    ("members", jArr (c.members.map fun m =>
+      let g := Inv.guardOf c.invs m.name (mem m.kind)
+      jArr [jStr m.name, gj g, jArr ((Inv.evaluatedOnce c.invs g).map jNat),
+            boolJson (Inv.mustGuardOnCall m.name (mem m.kind))])),
+    ("assign", jArr [gj (Inv.assignGuard c.invs), jArr ((Inv.evaluatedOnce c.invs (Inv.assignGuard c.invs)).map jNat)])]
+
+/-! ## re-entrancy domain -/
+
+deriving instance FromJson, ToJson for Re.Key
+deriving instance FromJson, ToJson for Re.Action
+deriving instance FromJson, ToJson for Re.Script
+deriving instance FromJson, ToJson for Re.FnDecl
+deriving instance FromJson, ToJson for Re.MethDecl
+deriving instance FromJson, ToJson for Re.ClsDecl
+deriving instance FromJson, ToJson for Re.Program
+deriving instance FromJson, ToJson for Re.Variant
+
+structure ReCase where
+  prog : Re.Program
+  variant : Re.Variant
+  top : List Re.Action            -- the top-level calls, in one context, each from a clean stack
+  fuel : Nat
+  specProg : Option Re.Program := none   -- what the property demands when the library cannot see a class (plain subclass)
+deriving FromJson
+
+namespace ReRun
+open Icontract.Re
+
+def evJson : Ev → Json
+  | .cond f k => jArr [jStr "cond", jNat f, jNat k]
+  | .post f k => jArr [jStr "post", jNat f, jNat k]
+  | .body f => jArr [jStr "body", jNat f]
+  | .inv i k => jArr [jStr "inv", jNat i, jNat k]
+  | .initBody i c => jArr [jStr "init", jNat i, jNat c]
+  | .methBody i m => jArr [jStr "meth", jNat i, jNat m]
+
+def outJson : Out → Json
+  | .ok => jArr [jStr "ok"]
+  | .violPre f k => jArr [jStr "violPre", jNat f, jNat k]
+  | .violPost f k => jArr [jStr "violPost", jNat f, jNat k]
+  | .violInv i k => jArr [jStr "violInv", jNat i, jNat k]
+  | .timeout => jArr [jStr "timeout"]
+
+def keyJson : Key → Json
+  | .fn f => jArr [jStr "fn", jNat f]
+  | .inst i => jArr [jStr "inst", jNat i]
+
+/-- each top-level action is run on the state left by the previous one (model) / on an empty stack (spec) -/
+def run (c : ReCase) : Json :=
+  let (_, outs) := c.top.foldl (fun (acc : St × List Json) a =>
+    let (st', o) := Re.run c.prog c.variant c.fuel { s := acc.1.s, tr := [] } (.act a)
+    let (sst, so) := Re.runSpec (c.specProg.getD c.prog) c.fuel { stack := [], tr := [] } (.act a)
+    (st', acc.2 ++ [Json.mkObj [("trace", jArr (st'.tr.map evJson)), ("out", outJson o),
+       ("inprog", jArr (st'.s.map keyJson)),
+       ("specTrace", jArr (sst.tr.map evJson)), ("specOut", outJson so)]])) ({}, [])
+  Json.mkObj [("steps", jArr outs)]
+
+end ReRun
+
 /-- a sequence of calls in one context: the in-progress set is threaded from step to step -/
 def runCheckerSeq (steps : List CheckerCase) : Json :=
   let rec go (s : Option (List Id)) : List CheckerCase → List Json
@@ -369,6 +455,14 @@ def handle (line : String) : String :=
       match (fromJson? j : Except String CheckerCase) with
       | .ok c => (runChecker c).compress
       | .error e => (Json.mkObj [("error", jStr s!"decode checker: {e}")]).compress
+    | .ok "select" =>
+      match (fromJson? j : Except String SelectCase) with
+      | .ok c => (runSelect c).compress
+      | .error e => (Json.mkObj [("error", jStr s!"decode select: {e}")]).compress
+    | .ok "reentry" =>
+      match (fromJson? j : Except String ReCase) with
+      | .ok c => (ReRun.run c).compress
+      | .error e => (Json.mkObj [("error", jStr s!"decode reentry: {e}")]).compress
     | .ok "meta" =>
       match (fromJson? j : Except String MetaCase) with
       | .ok c => (MetaRun.run c).compress
